@@ -85,7 +85,7 @@ def replay(c):
 def run(tier):
     t, summ = e1run.run_configs(configs(tier))
     from .. import core
-    core.run_pool([("mc.props.c02", "job_deep", {})], 0, into=t)
+    core.run_pool([("mc.props.c02", "job_deep", {}), ("mc.positional", "job", {"pid": "C02"})], 0, into=t)
     cov = {
         "states": sum(s["states"] for s in summ),
         "transitions": t.c["transitions"],
@@ -100,7 +100,7 @@ def run(tier):
     return {
         "tally": t,
         "coverage": cov,
-        "guards": ("spec:ok", "spec:noop", "spec:TreeError", "spec:LoopError", "spec:raises", "changed>=2_parents", "deep_chain_calls"),
+        "guards": ("spec:ok", "spec:noop", "spec:TreeError", "spec:LoopError", "spec:raises", "changed>=2_parents", "deep_chain_calls", "positional_calls"),
         "assumptions": ["bounded universes (N<=4, 5 in thorough); hooks do not raise in this check (see C03/C16)",
                         "LightNodeMixin with non-node arguments is left undefined by the statement: not judged"],
     }
